@@ -356,6 +356,13 @@ SigFacts evaluate(const SigView &v) {
 			const AggChain &p = v.agg[i - 1];
 			if (p.index.size() != c.index.size() + 1 || !std::equal(c.index.begin(), c.index.end(), p.index.begin())) { ok = false; f.why = "index continuation"; }
 		}
+		// legacy ids: 29 octets, 03 00 len name, zero from the end of the name on
+		for (auto &l : c.links) if (l.kind == 1) {
+			const std::string &x = l.sib;
+			bool okid = x.size() == 29 && x[0] == 0x03 && x[1] == 0x00 && (unsigned char)x[2] <= 25;
+			if (okid) for (size_t k = 3 + (unsigned char)x[2]; k < 29; k++) if (x[k] != 0) okid = false;
+			if (!okid) { ok = false; f.why = "legacy id"; }
+		}
 		// imprints have the length of their algorithm's digest
 		for (auto &l : c.links) if (l.kind == 0 && (l.sib.empty() || hash_len((unsigned char)l.sib[0]) == 0 || (size_t)hash_len((unsigned char)l.sib[0]) + 1 != l.sib.size())) { ok = false; f.why = "imprint length"; }
 		if (c.input.empty() || hash_len((unsigned char)c.input[0]) == 0 || (size_t)hash_len((unsigned char)c.input[0]) + 1 != c.input.size()) { ok = false; f.why = "imprint length"; }
